@@ -63,10 +63,27 @@ const (
 	mStarterClose = 7 // Split only: one consumer goroutine per output, each with its own context; output 0 takes k items (it starts the splitter) and is Closed; the others keep reading
 	mStarterCancl = 8 // same, but the context of output 0's advances is cancelled
 	mRangeCancel  = 9 // BufferedChannel / Channel only: a receiver ranges over the channel (no context of its own); the construction context is cancelled after k items
+	mDownstreamEr = 10 // a lazy conversion stage downstream of the construct fails with an ordinary error at item k+1: the consumer sees k items and io.EOF and walks away - no Close, no cancel
+	mPeekedInputs = 11 // MergeIterators / Buffer / Chain over goroutine-backed inputs that were advanced once under a live application context before being handed over; take k, then stop (Variant = 10*inner + stop)
+	mTinyExhaust  = 12 // K rounds of: build the construct over an input of n <= 1 items and read it to io.EOF (10 s deadline per round)
 )
 
+// mode 11: Variant = 10*inner + stop
+const (
+	inBuffer = 0 // input = source.Buffer(1)
+	inMap    = 1 // input = fun.Map(source, identity, 2 workers)
+	inSplit  = 2 // input = source.Split(1)[0]
+
+	stClose       = 1
+	stCancel      = 2
+	stCloseCancel = 3
+)
+
+var innerNames = []string{"Buffer(1)", "Map(2 workers)", "Split(1)[0]"}
+var errDownstream = errors.New("conversion failed")
+
 var modeNames = []string{"exhaust", "close", "cancel", "close-then-cancel", "abandon-one-close-others", "blocked-close", "blocked-cancel",
-	"starter-close-others-read", "starter-cancel-others-read", "range-then-cancel"}
+	"starter-close-others-read", "starter-cancel-others-read", "range-then-cancel", "downstream-error-eof-walk-away", "peeked-inputs-then-stop", "tiny-input-exhaust-rounds"}
 
 // GenerateParallel: Variant = 10*options + generator behaviour
 const (
@@ -287,6 +304,72 @@ type reader struct {
 }
 
 func iterReader(it *fun.Iterator[int64]) reader { return reader{read: it.ReadOne, close: it.Close} }
+
+// buildIter constructs the pipelines whose output is an iterator (nil for the others).
+func buildIter(c Case, block bool) *fun.Iterator[int64] {
+	w, n := c.Workers, c.N
+	opt := fun.WorkerGroupConfNumWorkers(w)
+	switch c.Construct {
+	case cSplit: // only output 0 is used (modes 10, 12)
+		return source(seq(0, n), block).Split(w)[0]
+	case cMap:
+		return fun.Map(source(seq(0, n), block), func(_ context.Context, v int64) (int64, error) { return v, nil }, opt)
+	case cParallelBuffer:
+		return source(seq(0, n), block).ParallelBuffer(w)
+	case cBuffer:
+		return source(seq(0, n), block).Buffer(c.Cap)
+	case cMerge:
+		srcs := make([]*fun.Iterator[int64], w)
+		for i := range srcs {
+			srcs[i] = source(chunk(n, w, i), block)
+		}
+		return fun.MergeIterators(srcs...)
+	case cGenerate:
+		return genProducer(c, block).GenerateParallel(genOptions(c)...)
+	case cChain:
+		srcs := make([]*fun.Iterator[int64], w)
+		for i := range srcs {
+			srcs[i] = source(chunk(n, w, i), block && i == w-1)
+		}
+		return itertool.Chain(srcs...)
+	case cMergeSlices:
+		sls := make([][]int64, w)
+		for i := range sls {
+			sls[i] = chunk(n, w, i)
+		}
+		return itertool.MergeSlices(sls...)
+	case cDtMap:
+		m := map[int64]int64{}
+		for _, v := range seq(0, n) {
+			m[v] = v
+		}
+		return dt.MapKeys(m)
+	case cAdtMap:
+		m := &adt.Map[int64, int64]{}
+		for _, v := range seq(0, n) {
+			m.Store(v, v)
+		}
+		return m.Keys()
+	}
+	return nil
+}
+
+// peekedInput is a goroutine-backed iterator over vals (the source then blocks, context guarded) that has
+// already been advanced once under appCtx - a context that outlives the consumer.
+func peekedInput(appCtx context.Context, inner int, vals []int64) (*fun.Iterator[int64], error) {
+	src := source(vals, true)
+	var it *fun.Iterator[int64]
+	switch inner {
+	case inMap:
+		it = fun.Map(src, func(_ context.Context, v int64) (int64, error) { return v, nil }, fun.WorkerGroupConfNumWorkers(2))
+	case inSplit:
+		it = src.Split(1)[0]
+	default:
+		it = src.Buffer(1)
+	}
+	_, err := it.ReadOne(appCtx)
+	return it, err
+}
 
 // build constructs the pipeline; root is the user's root context (only BufferedChannel needs a
 // context at construction time; it gets the one the consumer will cancel).
